@@ -489,7 +489,7 @@ def gen_terrain(rng, maxs):
     if kind == "bumps" and dtype.startswith("int"):
         a = [[float(int(x)) for x in row] for row in a]
     return dict(kind=kind, dtype=dtype, a=a, vr=rng.randrange(h), vc=rng.randrange(w),
-                oe=rng.choice([0, 0, 1, -1, 5]), te=rng.choice([0, 0, 2]),
+                oe=rng.choice([0, 0, 1, -1, 5]), te=rng.choice([0, 0, 2, 1, 0.5]),
                 dx=rng.choice([1.0, 1.0, 2.0, 0.5]), dy=rng.choice([1.0, 1.0, 0.5, 2.0]),
                 x0=rng.choice([0.0, 10.0, -3.0]), y0=rng.choice([0.0, 5.0]),
                 off=rng.choice([0.0, 0.0, 0.25, -0.25]))
@@ -537,10 +537,100 @@ def expected_output(c, visible):
     return out
 
 
+def corner_of(row, col, vr, vc, which):
+    """the entering (which=+1) / exiting (which=-1) corner of a cell, from geometry alone: among the four
+    corners the one with the smallest / largest bearing (counter-clockwise, rows grow downwards) as seen
+    from the observer's cell centre.  Exact integer arithmetic on doubled coordinates."""
+    cs = [(2 * (row + dr) - 1, 2 * (col + dc) - 1) for dr in (0, 1) for dc in (0, 1)]   # doubled corner coords
+    vs = [(x - 2 * vc, -(y - 2 * vr)) for (y, x) in cs]                                   # (dx, dy up)
+    best = None
+    for i, v in enumerate(vs):
+        ok = True
+        for j, u in enumerate(vs):
+            if i == j:
+                continue
+            cross = v[0] * u[1] - v[1] * u[0]      # > 0: u is counter-clockwise of v
+            if which == 1 and cross < 0:
+                ok = False
+            if which == -1 and cross > 0:
+                ok = False
+        if ok:
+            best = cs[i]
+    return best[0] / 2.0, best[1] / 2.0            # (y, x) of the corner
+
+
+def corner_elev(a, cy, cx, row, col):
+    """mean of the four cells meeting at the corner; the cell's own elevation when one of them is outside
+    the raster (or NaN)"""
+    h, w = a.shape
+    rows = (int(math.floor(cy)), int(math.ceil(cy)))
+    cols = (int(math.floor(cx)), int(math.ceil(cx)))
+    vals = []
+    for r_ in rows:
+        for c_ in cols:
+            if not (0 <= r_ < h and 0 <= c_ < w) or a[r_, c_] != a[r_, c_]:
+                return float(a[row, col])
+            vals.append(float(a[r_, c_]))
+    return sum(vals) / 4.0
+
+
+def bearing(y, x, vr, vc):
+    t = math.atan2(-(y - vr), x - vc)
+    return t + 2 * PI if t < 0 else t
+
+
+def oracle_events(c, ops, ev):
+    """L0, independent of the code: every event's corner, bearing and corner elevation, every status node's
+    key and gradients, recomputed from the geometry of the statement"""
+    a, xs, ys, ew, ns, velev, vt = terrain_setup(c)
+    a = a.astype(np.float64)
+    vr, vc = c["vr"], c["vc"]
+    if len(ev) != 3 * (a.size - 1):
+        return f"{len(ev)} events for {a.size} cells"
+    for e in ev:
+        row, col, typ = int(e[0]), int(e[1]), int(e[2])
+        if typ == 0:
+            y, x = float(row), float(col)
+        else:
+            y, x = corner_of(row, col, vr, vc, typ)
+        want = bearing(y, x, vr, vc)
+        if abs(want - e[3]) > 1e-9 and abs(abs(want - e[3]) - 2 * PI) > 1e-9:
+            return f"event {(row, col, typ)}: bearing {e[3]}, geometry gives {want} (corner {(y, x)})"
+        exp = (corner_elev(a, *corner_of(row, col, vr, vc, 1), row, col), float(a[row, col]),
+               corner_elev(a, *corner_of(row, col, vr, vc, -1), row, col))
+        for i in range(3):
+            if abs(exp[i] - e[4 + i]) > 1e-9 * max(1.0, abs(exp[i])):
+                return f"event {(row, col, typ)}: elevations {tuple(e[4:7])}, the 4-cell corner means give {exp}"
+    # status nodes: key = squared distance in map units, gradients = atan(height difference / distance)
+    cells = {}
+    for e in ev:
+        cells[(int(e[0]), int(e[1]))] = e
+    for op in ops:
+        if op[0] != "ins":
+            continue
+        n = op[1]
+        # identify the cell by its key and centre bearing is fragile; recompute for every cell and match
+    for (row, col), e in cells.items():
+        key = ((col - vc) * ew) ** 2 + ((row - vr) * ns) ** 2
+        node = status_node(row, col, e[4], e[5], e[6], bearing(*corner_of(row, col, vr, vc, 1), vr, vc), vr, vc, velev,
+                           ew, ns, False)
+        if abs(node[0] - key) > 1e-9 * max(1.0, key):
+            return f"cell {(row, col)}: key {node[0]}, squared distance is {key}"
+        for i, (y, x) in enumerate([corner_of(row, col, vr, vc, 1), (float(row), float(col)), corner_of(row, col, vr, vc, -1)]):
+            d = math.hypot((x - vc) * ew, (y - vr) * ns)
+            g = math.atan2(e[4 + i] - velev, d)
+            if abs(g - node[1 + i]) > 1e-9:
+                return f"cell {(row, col)}: gradient {i} is {node[1 + i]}, atan(dz/dist) gives {g}"
+    return None
+
+
 def oracle_terrain(c):
     """returns (None | description, details) -- the property on the public function"""
     a, xs, ys, ew, ns, velev, vt = terrain_setup(c)
     ops, ev, data = sweep_ops(a.astype(np.float64), c["vr"], c["vc"], velev, vt, ew, ns)
+    bad = oracle_events(c, ops, ev)
+    if bad:
+        return "event generation: " + bad, None
     ref = reference_visible(ops)
     pub, _ = public_viewshed(c)
     exp = expected_output(c, ref)
@@ -716,6 +806,13 @@ def geometry_perm(h, w, vr, vc):
     return np.lexsort((ev[:, 2], ev[:, 3])).astype(np.int64)
 
 
+def safe_oracle(c):
+    try:
+        return oracle_terrain(c)[0]
+    except Exception as ex:
+        return f"viewshed raised {type(ex).__name__}: {ex}"
+
+
 def fast_search(r, budget_s, maxs, per=200):
     """random geometries x random terrains; a differing cell is confirmed on the public function"""
     many = fast()
@@ -729,12 +826,16 @@ def fast_search(r, budget_s, maxs, per=200):
         te = r.rng.choice([0.0, 0.0, 2.0])
         perm = geometry_perm(h, w, vr, vc)
         for mode in (0, 1, 2, 3):
-            bad, a = many(h, w, vr, vc, oe, te, dx, dy, perm, per, r.rng.randrange(1 << 30), mode)
+            try:
+                bad, a = many(h, w, vr, vc, oe, te, dx, dy, perm, per, r.rng.randrange(1 << 30), mode)
+            except Exception as ex:   # the real sweep raised inside the compiled search
+                bad, a = 0, np.zeros((h, w))
+                r.extra.setdefault("notes", []).append(f"fast search: real code raised {type(ex).__name__}: {ex}")
             n += per
             if bad >= 0:
                 c = dict(kind=f"fast{mode}", dtype="float64", a=a.tolist(), vr=vr, vc=vc, oe=oe, te=te, dx=dx, dy=dy,
                          x0=0.0, y0=0.0, off=0.0)
-                why, _ = oracle_terrain(c)
+                why = safe_oracle(c)
                 if why:
                     r.fail("visibility", why, c)
                     return n
@@ -749,13 +850,19 @@ def case_key(c):
 def seam1(r, n_seq, nops, pool):
     requests, expect = [], []
     nrot = 0
-    for s in range(n_seq):
-        kind = r.rng.choice(["ties", "ties", "flat", "dyadic"])
-        alphabet = r.rng.choice([2, 3, 5])
-        p = r.rng.choice([6, 12, pool])
+    for s in range(3 * n_seq):
+        if s < n_seq:
+            kind = r.rng.choice(["ties", "ties", "flat", "dyadic"])
+            alphabet = r.rng.choice([2, 3, 5])
+            p = r.rng.choice([6, 12, pool])
+            n_ops = nops
+        else:
+            # tie-heavy long runs on small pools: many inexact (underestimating) states, which is where the
+            # deletion's augmentation repairs (F1, the L1 break, the L2 tie test) make a difference
+            kind, alphabet, p, n_ops = "flat", 3, r.rng.choice([6, 8, 10]), 300
         seed = r.rng.randrange(1 << 30)
-        ops = gen_tree_sequence(random.Random(seed), p, nops, alphabet, kind)
-        case = dict(stream="tree-random", seed=seed, pool=p, nops=nops, alphabet=alphabet, kind=kind)
+        ops = gen_tree_sequence(random.Random(seed), p, n_ops, alphabet, kind)
+        case = dict(stream="tree-random", seed=seed, pool=p, nops=n_ops, alphabet=alphabet, kind=kind)
         nrot += run_tree_sequence(r, ops, case, "tree-random", requests, expect)
         r.case(case, desc=case if s == 0 else None, nontrivial=True,
                tags=["seam1:random", f"grad:{kind}", f"pool:{p}"])
@@ -836,8 +943,12 @@ def run_corpus(r):
     nrot = 0
     for body in r.corpus():
         c = body.get("case", body)
-        why, det = oracle_terrain(c)
         r.case(case_key(c), nontrivial=True, tags=["corpus"])
+        try:
+            why, det = oracle_terrain(c)
+        except Exception as ex:
+            r.fail("raises", f"viewshed raised {type(ex).__name__}: {ex}", c)
+            continue
         if why:
             r.fail(body.get("key", "visibility"), why, c)
             continue
@@ -883,7 +994,7 @@ def search(r):
     for d in r.disagreements[:20]:
         c = d["case"].get("terrain") if isinstance(d["case"], dict) else None
         if c:
-            why, _ = oracle_terrain(c)
+            why = safe_oracle(c)
             if why:
                 r.fail("visibility", why, c)
                 return
@@ -893,7 +1004,7 @@ def search(r):
         rng = r.rng
         for _ in range(150 if r.tier == "quick" else 1500):
             c = gen_terrain(rng, 12)
-            why, _ = oracle_terrain(c)
+            why = safe_oracle(c)
             if why:
                 r.fail("visibility", why, c)
                 return
@@ -903,7 +1014,7 @@ def replay(r, body):
     c = body["case"]
     if isinstance(c, dict) and "terrain" in c:
         c = c["terrain"]
-    why, _ = oracle_terrain(c)
+    why = safe_oracle(c)
     if why:
         print("still fails:", why)
         return 1
